@@ -153,6 +153,16 @@ func c02R2(c *Ctx) {
 					onExit = true
 				}
 			}
+			// or the error is what an exit filter made of a non-nil error: nil exactly for `exit`
+			if hc, _ := callOf(res[len(res)-1]); hc != nil {
+				if h := hc.Call.StaticCallee(); h != nil && isExitFilter(p, h) {
+					for _, a := range hc.Call.Args {
+						if isErrorType(a.Type()) && FactsOf(ep).At(r.Block()).KnownNonNil(a) {
+							onExit = true
+						}
+					}
+				}
+			}
 			c.check(onExit || dom(le.Done, r.Block()), "R2", fmt.Sprintf("success-return #%d", n), p.InstrPos(r), "a run succeeds only after the END rules, or on `exit`", "EvalProgram can report success from a return that is neither an `exit` edge nor after the file and END loops: input is left unread (its faults unreported) and rules are skipped")
 		}
 	}
@@ -357,6 +367,21 @@ func c02R3(c *Ctx) {
 						}
 					}
 					c.check(okE, "R3", key, p.InstrPos(ifi), sName+" in a selector becomes a runtime error", sName+" raised inside a selector is not turned into a runtime error")
+				case sName == "errExit" && isExitFilter(p, fn):
+					// a helper of the driver: `return ev, keepUnlessExit(err)` — the driver returns the
+					// helper's verdict at once, so an exit still ends the run immediately
+					okSites, nSites := true, 0
+					for _, cs := range p.CallSitesOf(fn) {
+						if p.inTestFile(cs.Parent()) {
+							continue
+						}
+						nSites++
+						if shortName(cs.Parent()) != "lang.EvalProgram" || !returnedAtOnce(cs) {
+							okSites = false
+						}
+					}
+					n += nSites - 1
+					c.check(okSites && nSites > 0, "R3", key, p.InstrPos(ifi), fmt.Sprintf("exit filter used by the driver at %d returns", nSites), "the exit filter "+name+" is not used exclusively as the error of an immediate return of EvalProgram")
 				default:
 					c.violated("R3", key, p.InstrPos(ifi), sName+" is compared in "+name+", which is not one of its designed consumers")
 				}
@@ -565,4 +590,79 @@ func guardsAt(p *Program, fn *ssa.Function, b *ssa.BasicBlock) map[string]bool {
 		g[p.RenderShort(rl.y)+" "+flip(rl.op).String()+" "+p.RenderShort(rl.x)] = true
 	}
 	return g
+}
+
+// isExitFilter: h(err error) error returns nil when err is the exit signal and err itself otherwise.
+func isExitFilter(p *Program, h *ssa.Function) bool {
+	if h == nil || !p.InLang(h) || len(h.Blocks) == 0 || h.Signature.Results().Len() != 1 || !isErrorType(h.Signature.Results().At(0).Type()) {
+		return false
+	}
+	ek := EKOf(p)
+	j := -1
+	for i, prm := range h.Params {
+		if isErrorType(prm.Type()) {
+			if j >= 0 {
+				return false
+			}
+			j = i
+		}
+	}
+	if j < 0 {
+		return false
+	}
+	all := KSyntax | KRuntime | KJson | KRaw | KForeign | KUnknown | ek.AllSentinels()
+	if ek.PassMask(h, j, 0) != all&^ek.Sentinel("errExit") {
+		return false
+	}
+	// every other return is the constant nil
+	for _, r := range returnsOf(h) {
+		v := effectiveResults(r)[0]
+		if v == ssa.Value(h.Params[j]) {
+			continue
+		}
+		if phi, ok := v.(*ssa.Phi); ok {
+			for _, e := range phi.Edges {
+				if e != ssa.Value(h.Params[j]) && !isNilConst(e) {
+					return false
+				}
+			}
+			continue
+		}
+		if !isNilConst(v) {
+			return false
+		}
+	}
+	// no effects
+	pure := true
+	allInstrs(h, func(in ssa.Instruction) {
+		switch in.(type) {
+		case *ssa.Store, *ssa.MapUpdate, *ssa.Call, *ssa.Go, *ssa.Defer, *ssa.Send:
+			pure = false
+		}
+	})
+	return pure
+}
+
+// returnedAtOnce: the call's result is the error result of a Return in the same block, with no
+// other call in between.
+func returnedAtOnce(cs ssa.CallInstruction) bool {
+	cv, ok := cs.(*ssa.Call)
+	if !ok {
+		return false
+	}
+	b := cv.Block()
+	ret, ok := b.Instrs[len(b.Instrs)-1].(*ssa.Return)
+	if !ok {
+		return false
+	}
+	res := effectiveResults(ret)
+	if len(res) == 0 || res[len(res)-1] != ssa.Value(cv) {
+		return false
+	}
+	for i := instrIndex(cv) + 1; i < len(b.Instrs)-1; i++ {
+		if _, isCall := b.Instrs[i].(ssa.CallInstruction); isCall {
+			return false
+		}
+	}
+	return true
 }
